@@ -8,43 +8,22 @@ Ltac Zify.zify_post_hook ::= Z.div_mod_to_equations.
 
 #[export] Hint Resolve dec_ty_robust : rb.
 
-(* goal-directed proof search for the consumption predicates: one rule per constructor of the decoders *)
-Ltac pg_leaf :=
-  first [ exact I | apply ret_prog0
-        | apply rd_u8_prog | apply rd_i8_prog | apply rd_i16_prog | apply rd_i32_prog | apply rd_i64_prog
-        | apply rd_string_prog | apply rd_tag_prog
-        | apply prog_prog0; first [ apply rd_u8_prog | apply rd_i8_prog | apply rd_i16_prog | apply rd_i32_prog
-                                  | apply rd_i64_prog | apply rd_string_prog | apply rd_tag_prog ] ].
-
-Ltac pg :=
-  lazymatch goal with
-  | |- prog0 _ (run_flat (Ret _) _) => apply ret_prog0
-  | |- prog0 _ (run_flat (Fail _) _) => exact I
-  | |- prog _ (run_flat (Fail _) _) => exact I
-  | |- _ _ (run_flat (if ?c then _ else _) _) => destruct c; pg
-  | |- _ _ (run_flat (match ?x with _ => _ end) _) => destruct x; pg
-  | |- prog0 _ (run_flat (ReadFull _ _) _) => apply readfull_prog0; intros; pg
-  | |- prog _ (run_flat (ReadFull _ _) _) => apply readfull_prog; [lia | intros; pg]
-  | |- prog0 ?s (run_flat (rep _ _ _ _) ?s) =>
-      apply rep_prog0 with (L := length s); [auto with rb | intros; pg | lia | lia]
-  | |- prog0 _ (run_flat (bind _ _) _) => apply prog0_bind; [auto with rb | pg | intros; pg]
-  | |- prog _ (run_flat (bind _ _) _) => apply prog_bind; [auto with rb | pg | intros; pg]
-  | |- _ => first [ pg_leaf | idtac ]
-  end.
-
 Lemma dec_map_sprog fuel id s : (length s + 1 < fuel)%nat -> prog s (run_flat (dec_map fuel id) s).
-Proof. intros H. unfold dec_map. top_ifs; try exact I. apply dec_any_prog, H. Qed.
+Proof. intros H. now apply dmap_prog. Qed.
 Lemma dec_struct0_sprog fuel id s : (length s + 1 < fuel)%nat -> prog s (run_flat (dec_struct0 fuel id) s).
 Proof. intros H. unfold dec_struct0. top_ifs; try exact I. apply dec_skip_prog, H. Qed.
 
 (* typed scalar and slice destinations *)
-Theorem dec_ty_prog : forall fuel t id s, (length s + 1 < fuel)%nat -> prog s (run_flat (dec_ty fuel t id) s).
+#[export] Hint Resolve dty_robust : rb.
+Theorem dty_prog : forall fuel dep t id s, (length s + 1 < fuel)%nat -> prog s (run_flat (dty fuel dep t id) s).
 Proof.
-  induction fuel as [|f IH]; intros t id s Hs; [lia|].
-  destruct t; cbn [dec_ty]; pg;
-    try (apply dec_any_prog; lia); try (apply prog_prog0, dec_any_prog; lia);
-    try (apply dec_map_sprog; lia); try (apply IH; lia).
+  induction fuel as [|f IH]; intros dep t id s Hs; [lia|].
+  destruct t; cbn [dty]; pg;
+    try (apply dany_prog; lia); try (apply prog_prog0, dany_prog; lia);
+    try (apply dmap_prog; lia); try (apply IH; lia).
 Qed.
+Theorem dec_ty_prog : forall fuel t id s, (length s + 1 < fuel)%nat -> prog s (run_flat (dec_ty fuel t id) s).
+Proof. intros. now apply dty_prog. Qed.
 
 (* ---------- whole documents: Ok means the rest is strictly shorter (the header is at least one byte) ---------- *)
 Lemma Decode_prog {A} f (body : N -> dec A) s :
